@@ -77,7 +77,44 @@ def semantic_conds(seq):
         elif st[0] in ("ite", "cond"):
             st[2] = truth_table_form(st[2], widths)
     walk_steps(seq, fix)
+    sort_guard_runs(seq)
     return seq
+
+
+def sort_guard_runs(seq):
+    """consecutive guards all reject with an error before anything further is consumed: their order is irrelevant
+    (error kinds the properties do not name are not compared), so runs of guards are put in a canonical order"""
+    def fix_steps(steps):
+        i = 0
+        while i < len(steps):
+            if steps[i][0] == "guard":
+                j = i
+                while j < len(steps) and steps[j][0] == "guard":
+                    j += 1
+                run = sorted(steps[i:j], key=lambda g: json.dumps(g[1], sort_keys=True))
+                # drop duplicates
+                out = []
+                for g in run:
+                    if not out or out[-1][1] != g[1]:
+                        out.append(g)
+                steps[i:j] = out
+                i += len(out)
+            else:
+                i += 1
+
+    def rec(sq):
+        fix_steps(sq["steps"])
+        for st in sq["steps"]:
+            for x in st:
+                if isinstance(x, dict):
+                    rec(x)
+                elif isinstance(x, list):
+                    for y in x:
+                        if isinstance(y, dict):
+                            rec(y)
+                        elif isinstance(y, list) and len(y) == 2 and isinstance(y[1], dict):
+                            rec(y[1])
+    rec(seq)
 
 
 # ---------------------------------------------------------------- comparison
